@@ -38,6 +38,14 @@ def run(repo, chk):
     c16.run(repo, Remap(chk, {'C16.E1': 'C14.F4', 'C16.E2': 'C14.F4'}))
     chk.rule('C14.F5', 'a constant operand never removes a run-time check: x / <constant> keeps the division guard - shared with C05.G4')
     c05.run(repo, Remap(chk, {'C05.G4': 'C14.F5'}))
+    chk.rule('C14.F9', 'a literal element and a run-time element holding the same value give the same array: in bool array literals the '
+                       'run-time elements are OR-ed into the byte pre-packed from the constant ones; `is_safe` (which decides whether a '
+                       'pending operand may stay in a register) does not depend on an operand being a compile-time constant beyond '
+                       'immediates - shared with C13.B1 and C09.M2')
+    if chk.__class__.__name__ == 'Check':
+        from . import c13
+        c13.run(repo, Remap(chk, {'C13.B1': lambda c: 'C14.F9' if 'ArrayLiteral' in c or 'pack_bools' in c else None}))
+        c09.run(repo, Remap(chk, {'C09.M2': lambda c: 'C14.F9' if c == 'is_safe' else None}))
     chk.rule('C14.F6', 'constant arms of the condition lowerings (truth_is_defeat / bool_expr_branch on a folded BoolValue) use the '
                        'same averting form and the same defeat target as their run-time arms - shared with C03.J1/J2')
     if chk.__class__.__name__ == 'Check':
@@ -178,7 +186,7 @@ def _generator_constant_arms(repo, chk):
     int->byte is the low byte, byte->int the value itself, bool->int 0/1.  The arms are interpreted on immediates."""
     chk.rule('C14.F8', 'constant arms of the cast lowerings: for an immediate operand the generator computes v != 0 (to bool), '
                        'v mod 256 (to byte), v (to int) - exactly what its run-time instructions compute')
-    from ..genfacts import GenFacts, GEN
+    from ..genfacts import new_codegen, GenFacts, GEN
     gf = GenFacts(repo)
     ns = gf.module_ns()
     it = repo.__dict__['_gen_ns']['it']
@@ -192,7 +200,7 @@ def _generator_constant_arms(repo, chk):
             bad = None
             for v in (0, 1, 2, 3, 4, 6, 127, 128, 255, 256, 257, 510, 512, 32768, 65535, -1, -2, -256):
                 try:
-                    g = object.__new__(CG)
+                    g = new_codegen(CG)
                     g.word_size = ws
                     g.stack = ns['StackPoint']()
                     g.allocated_arrays = []
